@@ -398,6 +398,16 @@ def check(ctx):
                         ok = argt[0] == "agg" and argt[1] == "tuple" and [opnd(a) for a in argt[3]] == ["a", "b"] and peel(qs[0].ret[3][0], ())[0] in ("upvar", "param")
                         found = found or ok
         ctx.check(found, "R01.3", "Float::%s/applies-op(top,second)" % name, "map(|(x, y)| op(x, y)) over top2()", f.at())
+    # IfElse (true, two blocks): the block put back is the first component of pop2 (the top = `then` block)
+    ie = ctx.trait_fn("push::instruction::Instruction::perform", "push::instruction::exec::ifelse::IfElse")
+    kept = []
+    for p in ctx.paths(ie):
+        for c in p.calls():
+            if callee_is(c, "StackPush::with_stack_push", "HasStack::with_push", "Stack::push"):
+                kept.append(c[3][-1])
+    okk = len(set(kept)) == 1 and kept[0][0] == "field" and kept[0][2] == 0 and kept[0][1][0] == "field" and kept[0][1][3] == "Ok" and callee_is(peel(kept[0][1][1], ()), "Stack::pop2")
+    ctx.check(okk, "R01.3", "Exec::IfElse/true-keeps-the-then-block(top)", ", ".join(short(k, 4) for k in set(kept)), ie.at(),
+              bad_detail="when the condition is true IfElse must put back the first (top = then) block of the two it popped; extracted " + ", ".join(short(k, 5) for k in set(kept)))
     # ---- R01.5 ---------------------------------------------------------------------
     f = ctx.fn("<push::push_vm::push_state::PushState as push::push_vm::State>::run_to_completion")
     body = [p for p in ctx.paths(f) if p.end.startswith("loop:")]
